@@ -8,7 +8,7 @@ V(name)      == [k |-> "var", segs |-> <<[t |-> "k", v |-> name]>>]
 VP(name, p)  == [k |-> "var", segs |-> <<[t |-> "k", v |-> name], [t |-> "k", v |-> p]>>]
 VI(name, i)  == [k |-> "var", segs |-> <<[t |-> "k", v |-> name], [t |-> "i", i |-> i]>>]
 S(s)         == [k |-> "str", v |-> s]
-I(n)         == [k |-> "int", v |-> n]
+I(n)         == [k |-> "int", n |-> n]
 NilE         == [k |-> "nil"]
 TrueE        == [k |-> "true"]
 FalseE       == [k |-> "false"]
